@@ -1,4 +1,7 @@
+#[cfg(not(feature = "multiqueue2_verif"))]
 use std::sync::atomic::{AtomicUsize, Ordering};
+#[cfg(feature = "multiqueue2_verif")]
+use crate::verif_hooks::{AtomicUsize, Ordering};
 
 const UPDATE_EPOCH: usize = 1;
 const NO_READER: usize = 1 << 1;
@@ -66,4 +69,11 @@ impl LoadedSignal {
     pub fn get_reader(&self) -> bool {
         (self.flags & NO_READER) != 0
     }
+}
+
+// Verification hook (off by default): contracts and proof harnesses kept outside the repository.
+#[cfg(feature = "multiqueue2_verif")]
+#[allow(dead_code, unused_imports, unused_variables, unused_mut)]
+mod verif_contracts {
+    include!(concat!(env!("MULTIQUEUE2_VERIF_DIR"), "/atomicsignal.rs"));
 }
